@@ -175,7 +175,17 @@ def r3_3(cx):
         f = prog.fn(CI + '::' + nm)
         r = f.local_expr(0, []).strip()
         cx.count_sites()
-        cx.check(is_call(r, prog.fn(inner)), 'forwards:' + nm, f, None, 'returns the GlobalDeque result', fail_detail='%s returns %s' % (nm, show(r)[:80]))
+        okf = is_call(r, prog.fn(inner))
+        if not okf:
+            # ... or 0 on an early return taken only where nothing was asked for (count == 0)
+            alts = [a.strip() for a in phi_alts(r)]
+            zeros = [a for a in alts if a.is_const_int(0)]
+            okf = any(is_call(a, prog.fn(inner)) for a in alts) and all(is_call(a, prog.fn(inner)) or a.is_const_int(0) for a in alts) and bool(zeros)
+            for pos, st in f.statements():
+                if st['k'] == 'assign' and st['pl']['l'] == 0 and not st['pl']['p'] and st['rv']['k'] == 'use' and f.rvalue_expr(st['rv']).is_const_int(0):
+                    okf = okf and any((rel := as_relation((e, v))) and rel[0] == 'Eq' and rel[1].strip().kind == 'param' and rel[2].is_const_int(0)
+                                      for e, v, ed in f.facts_at(pos.bb))
+        cx.check(okf, 'forwards:' + nm, f, None, 'returns the GlobalDeque result', fail_detail='%s returns %s' % (nm, show(r)[:80]))
     f = prog.fn(GD + '::consume')
     r = f.local_expr(0, []).strip()
     adv = [c for c in f.calls(SL + '::advance')]
